@@ -195,6 +195,13 @@ def plan(tier, seed):
         P = pg.gen_program(rg, nsites=rg.randint(0, 4), nparams=rg.randint(0, 2), max_depth=rg.choice([1, 2]), focus="grid")
         progs.append(P)
         jobs.append((len(progs) - 1, P, [pg.gen_args(P, rg) for _ in range(2)], rg.randrange(1 << 30)))
+    # a nested DAG called with an explicit constant that is equal to the default of its parameter without being the same
+    # value (True for a default 1, ...): the body sees the argument.  Again a generator of its own
+    rq = random.Random(seed + 1979)
+    for _ in range(80 if tier == "quick" else 800):
+        P = pg.gen_program(rq, nsites=rq.randint(1, 3), nparams=rq.randint(0, 2), max_depth=rq.choice([1, 2]), focus="eq-default-sub")
+        progs.append(P)
+        jobs.append((len(progs) - 1, P, [pg.gen_args(P, rq) for _ in range(2)], rq.randrange(1 << 30)))
     return progs, jobs
 
 
